@@ -18,7 +18,7 @@ RULE = ("pool of 8 inputs over one bin table (empty, one pixel, full row, diagon
         "coolers; dtype limits: sums exactly at and one past the int32 / uint16 maximum, and an explicitly requested output dtype of other signedness / width (uint32->int32, int32->uint32/uint64, int64->int32/uint8, uint8->int8) with aggregates on both sides of its range. Non-trivial: >=2 inputs with >=1 pixel in "
         "total, or a refusal/limit case. Distinct by construction.")
 BOUNDS = {"quick": "k<=2 all sequences + 120 multisets of 3, mergebuf {1,2,5,1e6}; agg/column sweep on k<=2",
-          "thorough": "all 512 sequences of 3 x mergebuf {1,2,5,1e6}; agg/column sweep on k<=3 multisets; square + variable with k<=3"}
+          "thorough": "all 512 sequences of 3 x mergebuf {1,2,5,1e6}; all 625 sequences of 4 over a 5-element sub-pool x mergebuf {1,3}; agg/column sweep on k<=3 multisets; square + variable with k<=3"}
 ASSUMPTIONS = ["values are small integers / dyadic rationals so every aggregate is exact; 'mean' only on the float column",
                "overflow: the call may raise, or the stored value must be the exact aggregate"]
 EXPECT_CLASSES = {"*": ["merge:k1", "merge:k2", "merge:k3", "nest", "refuse", "limit"]}
@@ -71,6 +71,10 @@ def units(tier):
     for s in seqs + (tri if th else []):
         yield {"leg": "merge", "seq": s, "symm": False, "tab": "F", "bufs": [1, 10 ** 6], "aggs": [1]}
         yield {"leg": "merge", "seq": s, "symm": True, "tab": "V", "bufs": [2], "aggs": [1]}
+    if th:
+        # every sequence of FOUR inputs over a 5-element sub-pool (empty, one pixel, two disjoint supports, identical support)
+        for s4 in itertools.product([0, 1, 4, 5, 7], repeat=4):
+            yield {"leg": "merge", "seq": list(s4), "symm": True, "tab": "F", "bufs": [1, 3], "aggs": [1]}
     for t in itertools.product([1, 3, 4, 6], repeat=3):
         yield {"leg": "nest", "tri": list(t)}
     for a in range(9):
@@ -100,7 +104,7 @@ def _merge_case(R, unit, only):
             nt = len(seq) >= 2 and any(pix)
             R.ev(1, 1 if nt else 0)
             R.add("transitions")
-            R.cls("merge:k%d" % len(seq))
+            R.cls("merge:k%d" % min(len(seq), 3))
             want = {}
             for c in cols:
                 f = (agg or {}).get(c, "sum").replace("CALLABLE:", "")
